@@ -185,3 +185,73 @@ fault("c16-vfs-test-isinstance", "C16", "R16b", (PYG, "        if type(self.vfs)
 fault("c16-vfs-test-dropped-maildir", "C16", "R16b", (MBOX, "        if type(self.vfs) is not VFS_Real:\n            return 0\n", ""))
 twin("c16-twin-vfs-test-eq", "C16", (PYG, "        if type(self.vfs) is not VFS_Real:", "        if type(self.vfs) != VFS_Real:"))
 twin("c16-twin-vfs-test-notisinstance-zip", "C16", (PYG, "        if type(self.vfs) is not VFS_Real:", "        from pygopherd.handlers.ZIP import VFSZip\n        if isinstance(self.vfs, VFSZip):"))
+
+# ======================================================================= C02
+fault("c02-last-match", "C02", "R02a", (PMUX, "        if ptry.canhandlerequest():\n            return ptry\n", "        if ptry.canhandlerequest():\n            found = ptry\n    return found\n"),
+      (PMUX, "    for protocol in p:\n", "    found = None\n    for protocol in p:\n"))
+fault("c02-sorted-list", "C02", "R02a", (PMUX, "    for protocol in p:\n", "    for protocol in sorted(p, key=lambda c: c.__name__):\n"))
+fault("c02-return-unconditional", "C02", "R02a", (PMUX, "        if ptry.canhandlerequest():\n            return ptry\n", "        ptry.canhandlerequest()\n        return ptry\n"))
+twin("c02-twin-loop-else", "C02", (PMUX, "        if ptry.canhandlerequest():\n            return ptry\n", "        if ptry.canhandlerequest():\n            return ptry\n    else:\n        return None\n"))
+for name, rel, old in (("rfc", RFC, "        if self.secure != self.check_tls():\n            return False\n\n        if len(self.requestlist) > 1:"),
+                       ("gopherp", GP, "        if self.secure != self.check_tls():\n            return False\n\n        if len(self.requestlist) < 2:"),
+                       ("http", HTTP, "        if self.secure != self.check_tls():\n            return False\n\n        self.requestparts")):
+    fault(f"c02-parity-dropped-{name}", "C02", "R02b", (rel, old, old.split("\n\n", 1)[1]))
+fault("c02-parity-dropped-gemini", "C02", "R02b", (GEM, 'return self.check_tls() and self.request.startswith("gemini://")', 'return self.request.startswith("gemini://")'))
+fault("c02-parity-dropped-spartan", "C02", "R02b", (SPAR, "        if self.check_tls():\n            return False\n", ""))
+fault("c02-gemini-secure-flag", "C02", "R02b", (GEM, "    secure = True\n\n    query_prefix", "    secure = False\n\n    query_prefix"))
+fault("c02-parity-or", "C02", "R02b", (RFC, "        if self.secure != self.check_tls():\n            return False\n", "        if self.secure != self.check_tls() and len(self.requestlist) > 3:\n            return False\n"))
+fault("c02-checktls-wrong", "C02", "R02b", (PBASE, "return isinstance(self.requesthandler.request, ssl.SSLSocket)", "return isinstance(self.requesthandler.request, ssl.SSLContext)"))
+twin("c02-twin-parity-isnot", "C02", (RFC, "        if self.secure != self.check_tls():\n            return False\n", "        if self.check_tls() is not self.secure:\n            return False\n"))
+twin("c02-twin-parity-nested", "C02", (HTTP, "        if self.secure != self.check_tls():\n            return False\n\n        self.requestparts = [arg.strip() for arg in self.request.split(\" \")]\n        return (",
+                                       "        if self.secure == self.check_tls():\n            self.requestparts = [arg.strip() for arg in self.request.split(\" \")]\n            return (\n                len(self.requestparts) == 3\n                and (self.requestparts[0] == \"GET\" or self.requestparts[0] == \"HEAD\")\n                and self.requestparts[2][0:5] == \"HTTP/\"\n            )\n        return False\n        return ("))
+fault("c02-d1-unfixed", "C02", "R02c", (GP, 'self.gopherpstring.startswith("+")', 'self.gopherpstring[0] == "+"'))
+fault("c02-gopherp-guard-off", "C02", "R02c", (GP, "        if len(self.requestlist) < 2:\n            return False\n        if len(self.requestlist) == 2:", "        if len(self.requestlist) <= 2:"))
+fault("c02-http-len-guard", "C02", "R02c", (HTTP, "            len(self.requestparts) == 3\n            and (self", "            len(self.requestparts) >= 2\n            and (self"))
+fault("c02-spartan-index", "C02", "R02c", (SPAR, "return len(parts) == 3 and all(parts) and parts[2].isdigit()", "return parts[2].isdigit() and len(parts) == 3 and all(parts)"))
+fault("c02-catchall-first", "C02", "R02d", (CONF, "protocols = [wap.WAPProtocol, gemini.GeminiProtocol,", "protocols = [rfc1436.GopherProtocol, wap.WAPProtocol, gemini.GeminiProtocol,"))
+fault("c02-no-secure-catchall", "C02", "R02d", (CONF, "             rfc1436.GopherProtocol, rfc1436.SecureGopherProtocol]", "             rfc1436.GopherProtocol]"))
+twin("c02-twin-reorder-noncatchall", "C02", (CONF, "protocols = [wap.WAPProtocol, gemini.GeminiProtocol,", "protocols = [gemini.GeminiProtocol, wap.WAPProtocol,"))
+fault("c02-catchall-not-total", "C02", "R02d", (RFC, "        if len(self.requestlist) > 1:\n            self.searchrequest = self.requestlist[1]\n        return True", "        if len(self.requestlist) > 1:\n            self.searchrequest = self.requestlist[1]\n        return len(self.requestlist) < 4"))
+fault("c02-impure-test", "C02", "R02e", (SPAR, "        # The request line must be ASCII encoded\n", "        import time\n        if time.time() % 2 < 1:\n            return False\n"))
+fault("c02-no-peek", "C02", "R02f", (SERVER, "sock.recv(1, socket.MSG_PEEK)", "sock.recv(1)"))
+fault("c02-peek-two", "C02", "R02f", (SERVER, "sock.recv(1, socket.MSG_PEEK)", "sock.recv(2, socket.MSG_PEEK)"))
+fault("c02-wrong-byte", "C02", "R02f", (SERVER, 'b"\\x16"', 'b"\\x15"'))
+fault("c02-wrap-always", "C02", "R02f", (SERVER, '            if sock.recv(1, socket.MSG_PEEK) == b"\\x16":\n                return', '            if sock.recv(1, socket.MSG_PEEK) != b"\\x00":\n                return'))
+fault("c02-wrap-in-parent", "C02", "R02f", (SERVER, "        pid = os.fork()\n", "        request = self.wrap_socket(request)\n        pid = os.fork()\n"), (SERVER, "                request = self.wrap_socket(request)\n                self.finish_request(request, client_address)\n                status = 0", "                self.finish_request(request, client_address)\n                status = 0"))
+fault("c02-thread-no-sniff", "C02", "R02f", (SERVER, "            request = self.wrap_socket(request)\n            self.finish_request(request, client_address)\n        except Exception:", "            self.finish_request(request, client_address)\n        except Exception:"))
+fault("c02-result-dropped", "C02", "R02f", (SERVER, "            request = self.wrap_socket(request)\n            self.finish_request(request, client_address)\n        except Exception:", "            self.wrap_socket(request)\n            self.finish_request(request, client_address)\n        except Exception:"))
+twin("c02-twin-peek-local", "C02", (SERVER, '            if sock.recv(1, socket.MSG_PEEK) == b"\\x16":\n', '            peeked = sock.recv(1, socket.MSG_PEEK)\n            if peeked == b"\\x16":\n'))
+twin("c02-twin-early-return", "C02", (SERVER, '        if self.context:\n            if sock.recv(1, socket.MSG_PEEK) == b"\\x16":\n                return self.context.wrap_socket(sock, server_side=True)\n        return sock', '        if not self.context:\n            return sock\n        if sock.recv(1, socket.MSG_PEEK) != b"\\x16":\n            return sock\n        return self.context.wrap_socket(sock, server_side=True)'))
+
+# ======================================================================= C03
+for name, rel in (("base", PBASE), ("gopherp", GP), ("http", HTTP)):
+    fault(f"c03-no-fnf-handler-{name}", "C03", "R03a", (rel, "        except GopherExceptions.FileNotFound as e:\n            self.filenotfound(str(e))\n", ""))
+fault("c03-no-io-handler-gemini", "C03", "R03a", (GEM, "        except IOError as e:\n            GopherExceptions.log(e, self, None)\n            self.write_status(51, e.args[1])\n            return\n", ""))
+fault("c03-gemini-body-after-error", "C03", "R03a", (GEM, "            self.write_status(51, str(e))\n            return\n", "            self.write_status(51, str(e))\n"))
+fault("c03-spartan-two-status", "C03", "R03a", (SPAR, "        if handler.isdir():\n            self.write_status(2, \"text/gemini\")", "        self.write_status(2, \"text/gemini\")\n        if handler.isdir():\n            self.write_status(2, \"text/gemini\")"))
+fault("c03-gethandler-outside-try", "C03", "R03a", (PBASE, "        try:\n            handler = self.gethandler()\n            self.log(handler)\n", "        handler = self.gethandler()\n        try:\n            self.log(handler)\n"))
+twin("c03-twin-oserror-alias", "C03", (PBASE, "        except IOError as e:\n            GopherExceptions.log(e, self, None)\n            self.filenotfound(e.strerror)", "        except OSError as e:\n            GopherExceptions.log(e, self, None)\n            self.filenotfound(e.strerror)"))
+twin("c03-twin-msg-local", "C03", (PBASE, "            self.filenotfound(str(e))\n        except IOError", "            msg = str(e)\n            self.filenotfound(msg)\n        except IOError"))
+fault("c03-d2-unfixed", "C03", "R03b", (GEM, "        try:\n            url_parts = urllib.parse.urlparse(self.request.strip())\n        except ValueError:\n            self.write_status(59, \"Bad request\")\n            return\n", "        url_parts = urllib.parse.urlparse(self.request.strip())\n"))
+fault("c03-d3-unfixed", "C03", "R03b", (MBOX, "            message = next(mailbox, None)\n", "            message = next(mailbox)\n"))
+fault("c03-d13-unfixed", "C03", "R03b", (SPAR, "        urlmatch = re.match(\"(/|)URL:(.+)$\", entry.getselector())\n        if urlmatch:\n            # It's a plain URL.  Make it that.\n            url = urlmatch.group(2)", "        if re.match(\"(/|)URL:\", entry.getselector()):\n            url = re.match(\"(/|)URL:(.+)$\", entry.getselector()).group(2)"))
+fault("c03-d17-unfixed", "C03", "R03e", (MBOX, "        try:\n            mailbox = iter(self.openmailbox())\n        except NoSuchMailboxError:\n            raise GopherExceptions.FileNotFound(\n                self.selector, \"no such mailbox\", self.protocol\n            )\n", "        mailbox = iter(self.openmailbox())\n"))
+fault("c03-rfc-guard-off", "C03", "R03b", (RFC, "        if len(self.requestlist) > 1:\n            self.searchrequest", "        if len(self.requestlist) > 0:\n            self.searchrequest"))
+fault("c03-http-split-guard", "C03", "R03b", (HTTP, "        if len(splitted) >= 2:\n            self.formvals", "        if len(splitted) >= 1:\n            self.formvals"))
+fault("c03-http-formvals-guard", "C03", "R03b", (HTTP, '        if "searchrequest" in self.formvals:\n            self.searchrequest = self.formvals["searchrequest"][0]', '        self.searchrequest = self.requestparts[3]'))
+fault("c03-http-icon-guard", "C03", "R03b", (HTTP, "        if icon:\n            iconname = icon.group(1)", "        if True:\n            iconname = icon.group(1)"))
+fault("c03-mbox-none-guard", "C03", "R03b", (MBOX, "        if match is None:\n            return False\n\n", ""))
+fault("c03-mbox-int-nondigit", "C03", "R03b", (MBOX, 'pattern = "^" + self.getargflag() + r"(\\d+)$"', 'pattern = "^" + self.getargflag() + r"(\\w+)$"'))
+fault("c03-spartan-isdigit-dropped", "C03", "R03b", (SPAR, "return len(parts) == 3 and all(parts) and parts[2].isdigit()", "return len(parts) == 3 and all(parts)"))
+fault("c03-spartan-len-dropped", "C03", "R03b", (SPAR, "return len(parts) == 3 and all(parts) and parts[2].isdigit()", "return len(parts) >= 3 and all(parts) and parts[2].isdigit()"))
+fault("c03-spartan-ascii-dropped", "C03", "R03b", (SPAR, "        try:\n            self.request.encode(\"ascii\")\n        except UnicodeEncodeError:\n            return False\n", ""))
+fault("c03-slashnormalize-guard", "C03", "R03b", (PBASE, '        if len(selector) and selector[-1] == "/":', '        if selector[-1] == "/":'))
+fault("c03-urlrewriter-guard", "C03", "R03b", (URL, "            len(self.selector) >= 3\n            and self.selector[0]", "            len(self.selector) >= 2\n            and self.selector[0]"))
+fault("c03-wap-before-http", "C03", "R03b", (WAP, "        ishttp = HTTPProtocol.canhandlerequest(self)\n        if not ishttp:\n            return False\n", "        ishttp = HTTPProtocol.canhandlerequest(self)\n"))
+fault("c03-headerslurp-guard", "C03", "R03b", (HTTP, "            if len(splitline) == 2:\n", "            if len(splitline) >= 1:\n"))
+twin("c03-twin-not-ge", "C03", (GP, "        if len(self.requestlist) < 2:\n            return False\n", "        if not len(self.requestlist) >= 2:\n            return False\n"))
+twin("c03-twin-slice-for-startswith", "C03", (GP, 'self.gopherpstring.startswith("+")', 'self.gopherpstring[0:1] == "+"'))
+twin("c03-twin-len-local", "C03", (RFC, "        if len(self.requestlist) > 1:\n", "        n = len(self.requestlist)\n        if n > 1:\n"))
+fault("c03-gethandler-none", "C03", "R03c", (HM, '    raise GopherExceptions.FileNotFound(selector, "no handler found", protocol)', "    return None"))
+twin("c03-twin-raise-local", "C03", (HM, '    raise GopherExceptions.FileNotFound(selector, "no handler found", protocol)', '    err = GopherExceptions.FileNotFound(selector, "no handler found", protocol)\n    raise err'))
+fault("c03-write-state", "C03", "R03d", (FILE, "        self.vfs.copyto(self.getselector(), wfile)\n", '        self.vfs.copyto(self.getselector(), wfile)\n        with self.vfs.open(self.getselector() + ".hits", "a") as fp:\n            fp.write("x")\n'))
